@@ -26,14 +26,23 @@ func intervalOfFunc(pk *packages.Package, name string, depth int) (ival, bool) {
 	if f == nil || f.Decl == nil || depth > 4 {
 		return ival{}, false
 	}
-	if len(f.Decl.Body.List) != 1 {
+	// a body of single-definition locals followed by one return is read as the return expression with the locals
+	// replaced by their definitions
+	body := f.Decl.Body.List
+	if len(body) == 0 {
 		return ival{}, false
 	}
-	ret, ok := f.Decl.Body.List[0].(*ast.ReturnStmt)
+	for _, st := range body[:len(body)-1] {
+		as, ok := st.(*ast.AssignStmt)
+		if !ok || as.Tok != token.DEFINE {
+			return ival{}, false
+		}
+	}
+	ret, ok := body[len(body)-1].(*ast.ReturnStmt)
 	if !ok || len(ret.Results) != 1 {
 		return ival{}, false
 	}
-	return intervalOf(pk, ret.Results[0], depth)
+	return intervalOf(pk, inlineLocals(pk.TypesInfo, f.Decl.Body, ret.Results[0]), depth)
 }
 
 func typeRange(pk *packages.Package, t types.Type) (ival, bool) {
